@@ -2,6 +2,7 @@ package main
 
 import (
 	"fmt"
+	"sort"
 	"strconv"
 	"go/types"
 	"strings"
@@ -24,6 +25,40 @@ func (e *Enc) applyEffect(st *State, ef *effect) {
 			return
 		}
 	}
+	// "modifies fresh": arrays the callee writes only at objects it allocated itself keep their values at every
+	// reference that existed before the call; callee-allocated objects live in an id region of their own.
+	if len(ef.fresh) > 0 {
+		e.callRegion++
+		lo := fmt.Sprintf("(+ |alloc!0| %d)", 1000000000*e.callRegion)
+		hi := fmt.Sprintf("(+ |alloc!0| %d)", 1000000000*(e.callRegion+1))
+		inRegion := func(r string) string {
+			return fmt.Sprintf("(and ((_ is obj) %s) (< %s (oid %s)) (<= (oid %s) %s))", r, lo, r, r, hi)
+		}
+		root1 := "(ite ((_ is emb) r) (eobj r) (ite ((_ is elem) r) (ebase r) r))"
+		root2 := strings.ReplaceAll(root1, " r)", " "+root1+")")
+		_ = root2
+		for n := range ef.fresh {
+			if ef.names[n] {
+				continue
+			}
+			srt, ok := arrSorts[n]
+			if !ok || !strings.HasPrefix(srt, "(Array Ref ") {
+				continue
+			}
+			old := e.arrRaw(st, n, srt)
+			e.n++
+			nw := e.declare(fmt.Sprintf("%s@%d", n, e.n), srt)
+			st.m[n] = nw
+			e.wfArray(n, nw)
+			// r, its owner, and the owner's owner are not callee-allocated
+			e.assume(fmt.Sprintf("(forall ((r Ref)) (! (=> (and (not %s) (not %s) (not %s)) (= (select %s r) (select %s r))) :pattern ((select %s r))))",
+				inRegion("r"), inRegion(owner("r")), inRegion(owner(owner("r"))), nw, old, nw))
+		}
+	}
+}
+
+func owner(r string) string {
+	return fmt.Sprintf("(ite ((_ is emb) %s) (eobj %s) (ite ((_ is elem) %s) (ebase %s) %s))", r, r, r, r, r)
 }
 
 func (e *Enc) call(in *ssa.Call, st *State) {
@@ -34,6 +69,13 @@ func (e *Enc) call(in *ssa.Call, st *State) {
 		if c.Method.Pkg() != nil && ufIfacePkgs[c.Method.Pkg().Path()] {
 			e.set(in, e.ufApply("iface."+c.Method.Pkg().Path()+"."+c.Method.Name(), append([]ssa.Value{c.Value}, c.Args...), in.Type()))
 			return
+		}
+		{
+			argv := []*Val{recv}
+			for _, a := range c.Args {
+				argv = append(argv, e.val(a))
+			}
+			e.callSiteHooks(in, "invoke:"+c.Method.Name(), c.Method.Name(), append([]ssa.Value{c.Value}, c.Args...), argv, st)
 		}
 		if key := ifaceMethodKey(c.Method); e.db.pureIface[key] {
 			e.note("interface method %s is assumed pure (uninterpreted function of receiver and arguments)", key)
@@ -64,6 +106,17 @@ func (e *Enc) call(in *ssa.Call, st *State) {
 		// dynamic call through a function value
 		fv := e.val(c.Value)
 		e.oblige("nil", exprText(c.Value)+"()", in.Pos(), not(eq(fv.c[0], "null")))
+		{
+			nm := callbackName(c.Value)
+			if nm == "" {
+				nm = exprText(c.Value)
+			}
+			argv := []*Val{fv}
+			for _, a := range c.Args {
+				argv = append(argv, e.val(a))
+			}
+			e.callSiteHooks(in, "dyn:"+nm, nm, append([]ssa.Value{c.Value}, c.Args...), argv, st)
+		}
 		if fld := pureFieldOf(c.Value); fld != "" && e.db.pureFields[fld] {
 			e.note("values of function-typed field %s are pure functions (checked at every store to the field in functions under contract)", fld)
 			e.set(in, e.freshVal("purefield."+fld, in.Type()))
@@ -150,6 +203,89 @@ func (e *Enc) staticCall(in *ssa.Call, callee *ssa.Function, args []ssa.Value, s
 	e.staticCallV(in, callee, args, argv, st)
 }
 
+// siteOrdinal numbers the call sites of one callee in SOURCE order (stable under CFG changes elsewhere).
+func (e *Enc) siteOrdinal(in *ssa.Call, site string) int {
+	if e.siteOrd == nil {
+		e.siteOrd = map[*ssa.Call]int{}
+		bySite := map[string][]*ssa.Call{}
+		for _, b := range e.fn.Blocks {
+			for _, ins := range b.Instrs {
+				if c, ok := ins.(*ssa.Call); ok {
+					n := siteName(c)
+					bySite[n] = append(bySite[n], c)
+				}
+			}
+		}
+		for _, cs := range bySite {
+			sort.SliceStable(cs, func(i, j int) bool {
+				pi, pj := cs[i].Pos(), cs[j].Pos()
+				if pi == pj {
+					return cs[i].Block().Index < cs[j].Block().Index
+				}
+				return pi < pj
+			})
+			for i, c := range cs {
+				e.siteOrd[c] = i
+			}
+		}
+	}
+	if o, ok := e.siteOrd[in]; ok {
+		return o
+	}
+	return -2
+}
+
+func siteNameOf(callee *ssa.Function) string {
+	if pk := pkgPathOf(callee); pk != "" && !strings.HasPrefix(pk, modRoot) {
+		if callee.Signature.Recv() != nil {
+			return callee.String()
+		}
+		return pk + "." + callee.Name()
+	}
+	return fname(callee)
+}
+
+// callSiteHooks: call-site obligations (assert @call NAME#N / NAME#*) and ghost "reached" flags for one call site.
+func (e *Enc) callSiteHooks(in *ssa.Call, site, short string, args []ssa.Value, argv []*Val, st *State) bool {
+	ord := e.siteOrdinal(in, site)
+	e.lastOrd[site] = ord
+	key := fmt.Sprintf("%s#%d", site, ord)
+	if e.ghostSites[key] {
+		arrSorts["G|reached|"+key] = "Bool"
+		st.m["G|reached|"+key] = "true"
+	}
+	asserted := false
+	if e.con == nil {
+		return false
+	}
+	for _, a := range e.con.Asserts {
+		if a.Callee != site || !(a.Ordinal == ord || a.Ordinal < 0) {
+			continue
+		}
+		asserted = true
+		if !e.active(a.C) {
+			continue
+		}
+		vars := map[string]*Val{}
+		for k, v := range e.params {
+			vars[k] = v
+		}
+		for i := range argv {
+			vars[fmt.Sprintf("arg%d", i)] = argv[i]
+			if i < len(args) && args[i] != nil {
+				if mi, ok := args[i].(*ssa.MakeInterface); ok {
+					vars[fmt.Sprintf("unbox_arg%d", i)] = e.val(mi.X)
+				}
+			}
+		}
+		env := &Env{e: e, st: st, old: &e.entry, vars: vars, at: in}
+		o := e.oblige("assert", fmt.Sprintf("@call:%s#%d:%s", short, ord, shorten(a.C.Src)), in.Pos(), env.formula(a.C.E))
+		o.Owned = true
+		o.Clause = a.C
+	}
+	return asserted
+}
+
 // specKey names the specialization of callee selected by the dynamic types of interface-typed arguments that are
 // known at this call site, e.g. "restlicodec.readRecord[reader=*restlicodec.ror2Reader]".
 func (e *Enc) specKey(callee *ssa.Function, args []ssa.Value, argv []*Val) (string, map[int]types.Type) {
@@ -196,35 +332,14 @@ func (e *Enc) staticCallV(in *ssa.Call, callee *ssa.Function, args []ssa.Value, 
 			specDyn = dyn
 		}
 	}
-	asserted := false
-	if e.con != nil {
-		cn := fname(callee)
-		if pk := pkgPathOf(callee); pk != "" && !strings.HasPrefix(pk, "github.com/PapaCharlie") {
-			cn = pk + "." + callee.Name()
-		}
-		ord := e.kindN["callsite:"+cn]
-		e.kindN["callsite:"+cn]++
-		for _, a := range e.con.Asserts {
-			if a.Callee == cn && a.Ordinal == ord {
-				asserted = true
-				vars := map[string]*Val{}
-				for k, v := range e.params {
-					vars[k] = v
-				}
-				for i, arg := range args {
-					vars[fmt.Sprintf("arg%d", i)] = argv[i]
-					if mi, ok := arg.(*ssa.MakeInterface); ok {
-						vars[fmt.Sprintf("unbox_arg%d", i)] = e.val(mi.X)
-					}
-				}
-				env := &Env{e: e, st: st, old: &e.entry, vars: vars}
-				if e.active(a.C) {
-					o := e.oblige("assert", fmt.Sprintf("@call:%s#%d:%s", callee.Name(), ord, shorten(a.C.Src)), in.Pos(), env.formula(a.C.E))
-					o.Owned = true
-					o.Clause = a.C
-				}
-			}
-		}
+	cn := siteNameOf(callee)
+	asserted := e.callSiteHooks(in, cn, callee.Name(), args, argv, st)
+	if e.db.pureFns[callee.String()] {
+		e.note("dependency function %s is assumed pure (uninterpreted function of its arguments)", callee.String())
+		res := e.ufTerm("pure."+callee.String(), argv, in.Type())
+		e.set(in, res)
+		e.siteResults[fmt.Sprintf("%s#%d", cn, e.lastOrd[cn])] = res
+		return
 	}
 	if pk := pkgPathOf(callee); !strings.HasPrefix(pk, modRoot) {
 		full := pk + "." + callee.Name()
@@ -290,6 +405,7 @@ func (e *Enc) staticCallV(in *ssa.Call, callee *ssa.Function, args []ssa.Value, 
 		res = e.freshVal("call."+callee.Name(), in.Type())
 	}
 	e.set(in, res)
+	e.siteResults[fmt.Sprintf("%s#%d", cn, e.lastOrd[cn])] = res
 	if len(tinv) > 0 && len(args) > 0 {
 		env := &Env{e: e, st: st, old: &pre, vars: map[string]*Val{"self": argv[0]}}
 		for _, c := range tinv {
@@ -442,7 +558,35 @@ func (e *Enc) ufTerm(name string, args []*Val, rt types.Type) *Val {
 		f := e.declareFun("uf!"+name+"!"+l.path, "("+strings.Join(argSorts, " ")+") "+l.sort)
 		out.c = append(out.c, app(f, argTerms...))
 	}
+	e.stringFnFacts(name, argTerms, out)
 	return out
+}
+
+// stringFnFacts: ground definitions for strings.HasPrefix / HasSuffix when the affix is a literal.
+func (e *Enc) stringFnFacts(name string, args []string, out *Val) {
+	if (name != "strings.HasSuffix" && name != "strings.HasPrefix") || len(args) != 2 {
+		return
+	}
+	lit, ok := e.litOf[args[1]]
+	if !ok {
+		return
+	}
+	key := "strfact:" + out.c[0]
+	if e.declared[key] {
+		return
+	}
+	e.declared[key] = true
+	s := args[0]
+	n := int64(len(lit))
+	parts := []string{app(">=", app("slen", s), num(n))}
+	for i := int64(0); i < n; i++ {
+		idx := num(i)
+		if name == "strings.HasSuffix" {
+			idx = app("+", app("-", app("slen", s), num(n)), num(i))
+		}
+		parts = append(parts, eq(app("sat", s, idx), num(int64(lit[i]))))
+	}
+	e.assume(eq(out.c[0], and(parts...)))
 }
 
 // devirtualize resolves an interface method call on a value of known dynamic type t to the concrete method and the
